@@ -543,9 +543,13 @@ class Function(object):
 
         """
 
+        # Compare the decompositions without their null coefficients
+        # (e.g., 0 * x keeps x as a key with a null weight until it is pruned).
+        point_decomposition_dict = prune_dict(point.decomposition_dict)
+
         # Browse the list of point "self" has been evaluated on
         for triplet in self.list_of_points:
-            if triplet[0].decomposition_dict == point.decomposition_dict:
+            if prune_dict(triplet[0].decomposition_dict) == point_decomposition_dict:
                 # If "self" has been evaluated on "point", then break the loop and return its corresponding data
                 return triplet[1:]
 
